@@ -182,7 +182,10 @@ Definition constraint_f1 (c : fconstraint) : bool :=
   match c with
   | FCross | FConsistency | FReify _ | FMinimumTrials _ | FContinuous => true
   | FDerivation _ _ _ => true                      (* shape checked by [derivations_match] *)
-  | FAtMost _ f l wb | FExactlyK _ f l wb => (f <? length (fl_design fb)) && (l <? nlevels fb f) && geom_ok wb
+  | FAtMost _ f l wb => (f <? length (fl_design fb)) && (l <? nlevels fb f) && geom_ok wb
+  | FExactlyK _ f l wb =>
+    (f <? length (fl_design fb)) && (l <? nlevels fb f) && geom_ok wb &&
+    forallb (fun r => fst r <? snd r) (windows_of wb)     (* no empty window: EQ on no variables raises *)
   | FExclude f l => (f <? length (fl_design fb)) && (l <? nlevels fb f)
   | FPin _ f l wb => (f <? length (fl_design fb)) && (l <? nlevels fb f) && geom_ok wb && (geometry_sustain fb wb f =? 1)
   | _ => false
